@@ -49,7 +49,7 @@ fn probe(c: &mut Cl, wait: Duration) -> bool {
     false
 }
 
-pub const KINDS: &[&str] = &["close", "quit", "quitq", "mid-request", "protocol-error", "oversized", "idle-timeout", "idle-inside-first-request", "idle-inside-later-request", "waiting-close", "backlog-reset"];
+pub const KINDS: &[&str] = &["close", "quit", "quitq", "mid-request", "protocol-error", "oversized", "idle-timeout", "idle-inside-first-request", "idle-inside-later-request", "waiting-close", "backlog-reset", "idle-inside-oversized-body"];
 
 /// One case: limit L, lifecycles well beyond the limit.
 pub fn run_case(id: &str, limit: u32, rounds: usize, first_kind: usize, rng: &mut Rng, workers: usize, trace: &mut String, obs: &mut String, kinds_used: &mut HashMap<String, u64>) {
@@ -115,7 +115,7 @@ pub fn run_case(id: &str, limit: u32, rounds: usize, first_kind: usize, rng: &mu
         // every way of ending is visited in turn (the idle timeouts cost seconds of wall time each)
         let mut kind = (first_kind + round) % KINDS.len();
         *kinds_used.entry(KINDS[kind].to_string()).or_insert(0) += 1;
-        if kind >= 9 {
+        if kind == 9 || kind == 10 {
             // a connection that is not served yet goes away: the one the accept loop holds
             // while it waits for a slot closes (9), or one still in the listen backlog is
             // reset (10). It never counted; the others are served in order as slots free.
@@ -205,6 +205,14 @@ pub fn run_case(id: &str, limit: u32, rounds: usize, first_kind: usize, rng: &mu
                     let noop = Req::new(op::NOOP).opaque(0x1d1e).bytes();
                     if k == 7 {
                         let _ = cl.sock.write_all(&noop[..10]);
+                    } else if k == 11 {
+                        // an oversized item announced, part of its body sent, then silence: the
+                        // discarding of a refused body is no place to wait for ever either
+                        let mut r = crate::gen::set_like(op::SET, b"k", b"", 0, 0);
+                        r.bodylen = Some(100_000);
+                        let mut b = r.bytes();
+                        b.extend_from_slice(&vec![0u8; 300]);
+                        let _ = cl.sock.write_all(&b);
                     } else if k == 8 {
                         let mut b = noop.clone();
                         b.extend_from_slice(&noop[..10]);
